@@ -84,7 +84,7 @@ def proc_ids(pid):
 
 class Server:
     def __init__(self, worker_class="sync", workers=1, threads=None, args=(), bind="tcp", pidfile=False,
-                 config=None, env=None, name="srv"):
+                 config=None, env=None, name="srv", daemon=False):
         self.dir = tempfile.mkdtemp(prefix=name + "_", dir=_scratch())
         self.port = None
         self.sockpath = None
@@ -108,6 +108,14 @@ class Server:
             self.cmd += ["--threads", str(threads)]
         if self.pidfile:
             self.cmd += ["-p", self.pidfile]
+        self.daemon = daemon
+        self._pid = None
+        if daemon:
+            # the launcher exits after the double fork; the master is found through its pid file
+            if not self.pidfile:
+                self.pidfile = os.path.join(self.dir, "g.pid")
+                self.cmd += ["-p", self.pidfile]
+            self.cmd += ["--daemon"]
         self.cmd += list(args) + ["vapp:app"]
         self.env = dict(os.environ)
         self.env.update({"PYTHONPATH": REPO, "PYTHONDONTWRITEBYTECODE": "1", "PYTHONUNBUFFERED": "1"})
@@ -142,8 +150,16 @@ class Server:
         self.proc = subprocess.Popen(self.cmd, cwd=REPO, env=self.env, stdout=subprocess.DEVNULL,
                                      stderr=subprocess.DEVNULL)
         deadline = time.time() + timeout
+        if self.daemon:
+            self.proc.wait(timeout)
+            while time.time() < deadline and self._pid is None:
+                try:
+                    with open(self.pidfile) as f:
+                        self._pid = int(f.read().strip())
+                except (OSError, ValueError):
+                    time.sleep(0.05)
         while time.time() < deadline:
-            if self.proc.poll() is not None:
+            if not self.daemon and self.proc.poll() is not None:
                 raise RuntimeError("gunicorn exited at start with %s: %s" % (self.proc.returncode, self.errlog()[-2000:]))
             try:
                 st, body, _ = self.get("/pid", timeout=1.0)
@@ -156,7 +172,7 @@ class Server:
 
     @property
     def pid(self):
-        return self.proc.pid
+        return self._pid if self.daemon else self.proc.pid
 
     def now(self):
         """milliseconds since start"""
@@ -208,6 +224,16 @@ class Server:
             return None
 
     def cleanup(self):
+        if self.daemon and self._pid and proc_state(self._pid) not in (None, "Z"):
+            try:
+                for c in self.workers():
+                    try:
+                        os.kill(c, signal.SIGKILL)
+                    except OSError:
+                        pass
+                os.kill(self._pid, signal.SIGKILL)
+            except Exception:
+                pass
         if self.proc and self.proc.poll() is None:
             try:
                 for c in self.workers():
